@@ -34,6 +34,7 @@ def main():
     if a.setup:
         sys.exit(setup())
     seed = int(os.environ.get("VERIF_SEED", "1"))
+    lib.HARNESS_KEY = a.prop.upper()
     mod = importlib.import_module("props." + a.prop.lower())
     sys.exit(mod.run(a.tier, seed, a.replay))
 
